@@ -286,6 +286,11 @@ class Ctx:
         self.log("tlapm %s: %s obligations proved %.1fs" % (proof, m.group(1), time.time() - t))
         return int(m.group(1))
 
+    def alive(self, bad, total, what):
+        """A driver that cannot perform its cases decides nothing: more than 5 (and 5%) failed cases is Inconclusive."""
+        if total <= 0 or bad > max(5, total // 20):
+            raise Inconclusive("%s: the driver failed on %d of %d cases (see notes)" % (what, bad, total))
+
     def tlc_must_pass(self, r, what):
         """The spec itself must be error free (a spec error is inconclusive, not a violation)."""
         if not r.ok:
